@@ -382,61 +382,116 @@ def r4_operators(facts, rep):
         rep.ob("C01-R4", "pow:summary", False, "undecided: %s" % e)
         return
     if not rep.ob("C01-R4", "pow:loop-idiom", outs is not None,
-                  "the loop of eval::pow is the counting product `while !c.is_zero() { acc *= &b; c -= &signum(c0) }`" if outs is not None else why,
+                  "the loop of eval::pow is a counting product: one turn is ACC * X and counter - step, left at counter = 0 (checked inductively); closed form ACC0 * X^|counter|" if outs is not None else why,
                   body.site()):
         return
-    base, exp = Sym("base.value"), Sym("pow.value")
-    n_exp = T("numer", exp)
-    seen = set()
-    for o in outs:
+    pow_piecewise(dom, body, outs, rep)
+
+
+def pow_piecewise(dom, body, outs, rep):
+    """The summary of eval::pow is a piecewise function: (path condition -> value or error).  It is compared with the
+    specification pointwise on a grid of (base, exponent, unit emptiness, i32 fit): every path must be taken by some grid
+    point, and at every grid point every path whose condition holds must give the specified result."""
+    from ..absint import evalterm
+    from fractions import Fraction
+    bases = [Fraction(0), Fraction(2), Fraction(-1, 3), Fraction(5, 7), Fraction(-4)]
+    exps = [Fraction(-3), Fraction(-2), Fraction(-1), Fraction(0), Fraction(1), Fraction(2), Fraction(3), Fraction(1, 2), Fraction(-3, 2)]
+    grid = []
+    huge = Fraction(10 ** 10)
+    points = [(b, e) for b in bases for e in exps] + [(b, e) for b in (Fraction(0), Fraction(1), Fraction(-1)) for e in (huge, -huge, huge + 1)]
+    for b, e in points:
+        for be in (True, False):
+            for pe in (True, False):
+                fits = e.denominator != 1 or abs(e) < 2 ** 31
+                env = {"base.value": b, "pow.value": e, "base.unit": "BU", "pow.unit": "PU", "span": "span",
+                       "is_empty": (lambda u, be=be, pe=pe: be if u == "BU" else pe)}
+                grid.append((env, b, e, be, pe, fits))
+
+    def spec(b, e, be, pe, fits):
+        errs = set()
+        if not pe:
+            errs.add("IllegalPowerUnit")
+        if e.denominator != 1:
+            errs.add("IllegalPowerNonInteger")
+        if not be and not fits:
+            errs.add("IllegalPowerTooLarge")
+        if b == 0 and e < 0:
+            errs.add("DivideByZero")
+        val = None
+        if not errs:
+            val = Fraction(1) if e == 0 else b ** int(e)
+        return errs, val
+
+    n_ok = n_err = 0
+    zero_neg_seen = False
+    for idx, o in enumerate(outs):
         pc = dom.pc(o.store)
         pcs = "; ".join("%r=%s" % (p, b) for p, b in pc)
         if o.kind != "ret":
             rep.ob("C01-R4", "pow:panic:%s" % E_key(pc), False, "eval::pow can end in %s (%s) where %s" % (o.kind, o.value, pcs), o.site)
             continue
         u = E.unpack(o.value)
-        ez = dom.decide(o.store, T("is_zero", exp))
-        bz = dom.decide(o.store, T("is_zero", base))
-        neg1 = dom.decide(o.store, T("sign_is", n_exp, Const("Minus")))
-        neg2 = dom.decide(o.store, T("==", T("discr", T("sign", T("signum", n_exp))), Const(0)))
-        neg = neg1 if neg1 is not None else neg2
-        integer = dom.decide(o.store, T("is_integer", exp))
+        overflow_event = any(e_[0] == "unit_pow" and e_[1] == "overflow" for e_ in dom.log(o.store))
+        hits = 0
+        bad = None
+        try:
+            for env, b, e, be, pe, fits in grid:
+                if not evalterm.holds(pc, env):
+                    continue
+                hits += 1
+                errs, val = spec(b, e, be, pe, fits)
+                if overflow_event and not be:
+                    errs = errs | {"IllegalPowerTooLarge"}
+                    val = None
+                if u[0] == "ok":
+                    got = evalterm.ev(u[1], env)
+                    if errs and val is None:
+                        bad = "returns the number %s for base %s, exponent %s (unit empty: %s); specified an error (%s)" % (got, b, e, be, sorted(errs))
+                        break
+                    if got != val:
+                        bad = "returns %s for base %s, exponent %s; specified %s" % (got, b, e, val)
+                        break
+                elif u[0] == "err":
+                    if u[1] not in errs:
+                        bad = "returns Err(%s) for base %s, exponent %s (base unit empty: %s, exponent unit empty: %s, fits i32: %s); specified %s" % (
+                            u[1], b, e, be, pe, fits, "the value %s" % val if not errs else "one of %s" % sorted(errs))
+                        break
+                    if u[1] == "DivideByZero":
+                        zero_neg_seen = True
+                else:
+                    bad = "returns %r" % (o.value,)
+                    break
+        except evalterm.Unrecognised as ex:
+            bad = "the path condition or value uses something the comparison does not know: %s" % ex
+        except ZeroDivisionError:
+            bad = "the value divides by zero at a grid point that satisfies the path condition (the division is not guarded)"
+        if bad is None and hits == 0 and not overflow_event:
+            bad = "no grid point satisfies the path condition %s: an unreachable or unrecognised case" % pcs
         if u[0] == "ok":
-            val = u[1]
-            key = "pow:ok:exp_zero=%s:base_zero=%s:exp_negative=%s" % (ez, bz, neg)
-            if ez:
-                good = val == K(1)
-                want = "1"
-            elif bz:
-                good = val == base and neg is False
-                want = "0 (the base) - only for a positive exponent"
-            elif bz is False and neg is not None:
-                b_ = T("recip", base) if neg else base
-                good = val == T("*", K(1), T("pow", b_, T("abs", n_exp))) and integer is True
-                want = "1 * %s^|exponent|" % ("recip(base)" if neg else "base")
-            else:
-                good = False
-                want = "a value on a path that tested the base for zero and the exponent's sign"
-            if key in seen and good:
-                continue
-            seen.add(key)
-            rep.ob("C01-R4", key, good, "eval::pow returns %r, expected %s, where %s" % (val, want, pcs), o.site,
-                   sample={"value": repr(val), "path_condition": pcs})
-            if isinstance(val, T) and "recip" in repr(val):
-                rep.ob("C01-R4", "pow:recip-guarded:%s" % neg, bz is False,
-                       "recip(base) is reached %s" % ("only with a base tested non-zero" if bz is False else "WITHOUT a zero test of the base"), o.site)
+            n_ok += 1
         elif u[0] == "err":
-            kind = u[1]
-            if kind == "DivideByZero":
-                rep.ob("C01-R4", "pow:err:DivideByZero", bz is True and neg is True,
-                       "Err(DivideByZero) where base_zero=%s exponent_negative=%s" % (bz, neg), o.site)
-            elif kind == "IllegalPowerNonInteger":
-                rep.ob("C01-R4", "pow:err:NonInteger", integer is False, "Err(IllegalPowerNonInteger) where is_integer=%s" % integer, o.site)
-    # the (zero base, negative exponent) class exists and is an error
-    cls = [o for o in outs if dom.decide(o.store, T("is_zero", base)) is True and
-           (dom.decide(o.store, T("sign_is", n_exp, Const("Minus"))) is True)]
-    rep.ob("C01-R4", "pow:zero-base-negative-exponent", bool(cls) and all(E.unpack(o.value)[0] == "err" for o in cls),
-           "zero base with a negative exponent: %d path(s), %s" % (len(cls), sorted({E.unpack(o.value)[1] for o in cls})))
+            n_err += 1
+        kind = u[0] if u[0] != "err" else "err:" + u[1]
+        rep.ob("C01-R4", "pow:path:%s:%s" % (kind, E_key(pc)), bad is None,
+               ("eval::pow %s where %s" % (bad, pcs)) if bad else "agrees with base^exponent / the specified error at all %d grid points of this path" % hits,
+               o.site, sample={"result": repr(u[1]) if len(u) > 1 else None, "path_condition": pcs, "grid_points": hits})
+        if u[0] == "ok" and "recip" in repr(u[1]):
+            bz = dom.decide(o.store, T("is_zero", Sym("base.value")))
+            rep.ob("C01-R4", "pow:recip-guarded:%s" % E_key(pc), bz is False,
+                   "recip(base) is reached %s" % ("only with a base tested non-zero" if bz is False else "WITHOUT a zero test of the base"), o.site)
+    # completeness: every grid point is answered by some path
+    uncovered = 0
+    try:
+        for env, b, e, be, pe, fits in grid:
+            if not any(evalterm.holds(dom.pc(o.store), env) for o in outs if o.kind == "ret"):
+                uncovered += 1
+    except evalterm.Unrecognised:
+        uncovered = -1
+    rep.ob("C01-R4", "pow:total", uncovered == 0 and n_ok >= 3 and n_err >= 3,
+           "every one of the %d grid points is answered by a path (%d Ok paths, %d Err paths)" % (len(grid), n_ok, n_err) if uncovered == 0 else
+           "%s grid points are answered by no path of the summary" % uncovered, body.site())
+    rep.ob("C01-R4", "pow:zero-base-negative-exponent", zero_neg_seen,
+           "zero base with a negative exponent is Err(DivideByZero) on its path(s)" if zero_neg_seen else "no path yields Err(DivideByZero)", body.site())
 
 
 def E_key(pc):
